@@ -1,15 +1,125 @@
 /-
-Driver.SerdeSuite — suite `serde` (stub: replaced by the owner of the suite).
-Must define `serdeLine : String → String` (case line ↦ model observation line) and
-`serdePred : String → String → String → String` (property id, case line, implementation
-observation line ↦ "ok" | "fail <reason>").
+Driver.SerdeSuite — suite `serde` (C17): parse a case, run Model.Serde, print the
+observation in the same canonical form as harness/src/suites/serde.rs; evaluate
+`P_C17` on the implementation's observation.
 -/
-import Driver.Sx
+import Driver.SerdeInst
+import VarlinkVerif.Pred.Serde
 
 namespace VV
+open Sx
 
-def serdeLine (_line : String) : String := "(stub)"
+def resEnc (orig : TVal) : Option TVal → Sx
+  | none => .atom "err"
+  | some v => .list [.atom "ok", sxOfTVal v, ofBool (v == orig)]
 
-def serdePred (_prop _caseLine _obsLine : String) : String := "fail stub-suite"
+def resDec (t : Ty) : Option TVal → Sx
+  | none => .atom "err"
+  | some v => .list [.atom "ok", sxOfTVal v, ofJson (toValue t v)]
+
+def parseTbl : Sx → Option (List (Nat × Nat))
+  | .list (.atom "fl" :: es) => es.mapM fun e => match e with
+    | Sx.list [a, b] => do
+      let a ← asNat a
+      let b ← asNat b
+      pure (a, b)
+    | _ => none
+  | _ => none
+
+/-- model observation of `(enc ty v fl)`.  The text layer is `tblLayer fl` (a
+    parameter of the model, measured by the harness); `to_string` and `to_vec`
+    write the same tree, `to_value` its normal form. -/
+def runEnc (t : Ty) (v : TVal) (tbl : List (Nat × Nat)) : Sx :=
+  let L := tblLayer tbl
+  let e := encode t v
+  let ev := toValue t v
+  let back (j : Json) : Sx := match L.parse (L.print j) with
+    | some j' => ofJson j'.norm
+    | none => .atom "err"
+  let encs : Sx := .list [.atom "encs", back e, back e, ofJson ev]
+  -- per encoding: the text, and the `Value` handed to from_value
+  let texts : List (Json × Option Json) :=
+    [(L.print e, (L.parse (L.print e)).map Json.norm), (L.print e, (L.parse (L.print e)).map Json.norm),
+     (L.print ev, some ev)]
+  let rt := texts.flatMap fun (txt, val) =>
+    [resEnc v (fromText cvtF64 L t txt), resEnc v (fromText cvtF64 L t txt),
+     resEnc v (val.bind (fromValue cvtF64 t))]
+  let rtSx : Sx := match rt with
+    | r0 :: rest => if rest.all (fun r => render r == render r0) then .list [.atom "rt9", r0] else .list (.atom "rt" :: rt)
+    | [] => .list [.atom "rt"]
+  .list [.atom "obs", encs, .atom "t", rtSx]
+
+def runDec (t : Ty) (raw : Json) (tbl : List (Nat × Nat)) : Sx :=
+  let L := tblLayer tbl
+  let a := resDec t (fromText cvtF64 L t (L.print raw))
+  let c := resDec t (fromTextViaValue cvtF64 L t (L.print raw))
+  .list [.atom "obs", a, a, c]
+
+def serdeLine (line : String) : String :=
+  match parse line with
+  | some (.list [.atom "enc", .atom ty, v, fl]) =>
+    match serdeTy ty, tvalOfSx v, parseTbl fl with
+    | some t, some v, some tbl => render (runEnc t v tbl)
+    | _, _, _ => "(model-case-error)"
+  | some (.list [.atom "dec", .atom ty, raw, fl]) =>
+    match serdeTy ty, toJson raw, parseTbl fl with
+    | some t, some raw, some tbl => render (runDec t raw tbl)
+    | _, _, _ => "(model-case-error)"
+  | _ => "(model-parse-error)"
+
+/-! ### predicate glue -/
+
+def parseResEnc : Sx → Option (Option (TVal × Bool))
+  | .atom "err" => some none
+  | .list [.atom "ok", v, .atom "t"] => (tvalOfSx v).map fun v => some (v, true)
+  | .list [.atom "ok", v, .atom "f"] => (tvalOfSx v).map fun v => some (v, false)
+  | _ => none
+
+def parseResDec : Sx → Option (Option (TVal × Json))
+  | .atom "err" => some none
+  | .atom "text-err" => some none
+  | .list [.atom "ok", v, j] => do
+    let v ← tvalOfSx v
+    let j ← toJson j
+    pure (some (v, j))
+  | _ => none
+
+def parseJsonOrErr : Sx → Option Json
+  | .atom "err" => none
+  | x => toJson x
+
+def serdePred (prop : String) (caseLine obsLine : String) : String :=
+  if prop != "C17" then "fail unknown-property" else
+  match parse caseLine, parse obsLine with
+  | some (.list [.atom "enc", .atom ty, v, fl]), some obs =>
+    match serdeTy ty, tvalOfSx v, parseTbl fl, obs with
+    | some t, some v, some tbl, .list [.atom "obs", .list [.atom "encs", a, b, c], same, rtSx] =>
+      let rtl : Option (List Sx) := match rtSx with
+        | .list [.atom "rt9", r] => some (List.replicate 9 r)
+        | .list (.atom "rt" :: rt) => some rt
+        | _ => none
+      match rtl.bind (·.mapM parseResEnc) with
+      | some rt =>
+        let o : EncObs := { encs := [parseJsonOrErr a, parseJsonOrErr b, parseJsonOrErr c],
+                            sameBytes := same matches .atom "t", rt := rt }
+        match P_C17_enc t v tbl o with
+        | none => "ok"
+        | some r => "fail " ++ r
+      | none => "fail unparsable-observation"
+    | some _, some _, some _, .list (.atom "panic" :: _) => "fail panic"
+    | _, _, _, _ => "fail unparsable-case-or-observation"
+  | some (.list [.atom "dec", .atom ty, raw, fl]), some obs =>
+    match serdeTy ty, toJson raw, parseTbl fl, obs with
+    | some t, some raw, some tbl, .list [.atom "obs", a, b, c] =>
+      match parseResDec a, parseResDec b, parseResDec c with
+      | some a, some b, some c =>
+        match P_C17_dec t (optionalMembers t) (knownMembers t) (raw.mapFlt (tblFn tbl))
+            { str := a, slice := b, value := c } with
+        | none => "ok"
+        | some r => "fail " ++ r
+      | _, _, _ => "fail unparsable-observation"
+    | some _, some _, some _, .list (.atom "panic" :: _) => "fail panic"
+    | _, _, _, _ => "fail unparsable-case-or-observation"
+  | _, _ => "fail unparsable-line"
 
 end VV
